@@ -28,6 +28,10 @@ MK_PREREQ_START = dict(MK_TARGET_START)
 MK_FUNCARG = {'$': 'variable reference', ',': 'argument separator (8.1)'}
 MK_SQ_AUTOVAR = {"'": 'ends the sh single-quoted word around $@ / $< / $(1)'}
 
+# characters the reader un-escapes in a context although they are not special
+# there (escaping them is harmless); context -> characters, with the reason
+UNESCAPED_TOO = {}
+
 # --- Ninja (manual, "Lexical syntax") ---------------------------------------
 NJ_PATH = {'$': 'escape character', ' ': 'separates paths',
            ':': 'ends the output list'}
